@@ -70,6 +70,9 @@ func c05Corpus(quick bool) []c05Script {
 		c05Script{mode: "emacs", keys: []string{"a", "é", "b", "\x01", "\x1d", "é", "X", "\r"}},
 		c05Script{mode: "emacs", keys: []string{"\x16", "中", "a", "\r"}},
 		c05Script{mode: "emacs", keys: []string{"a", "b", "\x03", "c", "d", "\r"}},
+		// keys fed back by a command (upper-case meta key, macro replay) followed by a multi-byte character
+		c05Script{mode: "emacs", keys: []string{"a", "b", " ", "c", "\x1bB", "é", "\r"}},
+		c05Script{mode: "emacs", keys: []string{"\x18(", "a", "\x18)", "\x18e", "中", "b", "\r"}},
 	)
 	vi := [][]string{
 		{"i", "a", "\x1b", "\r"}, {"a", "b", "\x1b", "h", "x", "\r"}, {"a", "b", "a", "\x1b", "0", "f", "a", "x", "\r"},
